@@ -16,7 +16,7 @@ ASSUMPTIONS = [
     "expected element values are computed from the description by the monitor (polar -> abs*e^{j phase}), compared through the element protocol (Z, Y, V, I) at 1e-12 relative",
     "round trips compare structure exactly and numbers at 1e-15 relative (text formats print shortest round-trip floats)",
 ]
-N = {'quick': {'net': 900, 'circ': 500, 'doc': 500, 'cplx': 400}, 'thorough': {'net': 16000, 'circ': 9000, 'doc': 9000, 'cplx': 6000}}
+N = {'quick': {'net': 2700, 'circ': 1500, 'doc': 1500, 'cplx': 1200}, 'thorough': {'net': 16000, 'circ': 9000, 'doc': 9000, 'cplx': 6000}}
 NET_KINDS = ['resistor', 'conductor', 'impedance', 'admittance', 'linear_current_source', 'current_source', 'real_current_source',
              'linear_voltage_source', 'voltage_source', 'real_voltage_source', 'short_circuit', 'open_circuit']
 CIRC_KINDS = ['resistor', 'conductance', 'impedance', 'admittance', 'dc_voltage_source', 'ac_voltage_source', 'complex_voltage_source',
